@@ -52,7 +52,8 @@ type framesScenario struct {
 	EofWith  bool      `json:"eofwith"`
 	Concrete bool      `json:"concrete"` // lens and cut are already concrete (replay)
 	Bomb     bool      `json:"bomb"`     // measure what the call allocates
-	MaxLimit bool      `json:"maxlimit"` // configure the largest possible read limit
+	MaxLimit bool      `json:"maxlimit"` // configure a huge read limit (BigLimit says which; default the largest int)
+	BigLimit string    `json:"biglimit"`
 }
 
 func init() { families["frames"] = runFrames }
@@ -232,7 +233,14 @@ func runFrames(raw json.RawMessage, seed int64, rec *Rec) {
 	}
 	limit := s.Limit
 	if s.MaxLimit {
-		limit = math.MaxInt
+		switch s.BigLimit {
+		case "4g":
+			limit = 1 << 32
+		case "4g16":
+			limit = 1<<32 + 16
+		default:
+			limit = math.MaxInt
+		}
 	}
 	var ms0 runtime.MemStats
 	if s.Bomb {
